@@ -31,19 +31,20 @@ const (
 )
 
 type c01Sess struct {
-	ctx       context.Context
-	root      string
-	ws        bool
-	s         *Server
-	cl        *zzClient
-	disk      [3]string
-	buf       [3]string
-	open      [3]bool
-	edits     [3]int   // how many times the document was edited in the editor
-	ver       [3]int32 // document version of the current editing session (restarts at 1 with every didOpen)
-	incOn     bool     // main currently includes inc
-	hold      bool     // analyses started from now on stay pending
-	pendingOp int      // the operation whose analysis is still pending at the end (-1: none)
+	ctx            context.Context
+	root           string
+	ws             bool
+	s              *Server
+	cl             *zzClient
+	disk           [3]string
+	buf            [3]string
+	open           [3]bool
+	edits          [3]int   // how many times the document was edited in the editor
+	ver            [3]int32 // document version of the current editing session (restarts at 1 with every didOpen)
+	incOn          bool     // main currently includes inc
+	hold           bool     // analyses started from now on stay pending
+	pendingOp      int      // the operation whose analysis is still pending at the end (-1: none)
+	savedAfterMain bool     // incl.journal was saved (the disk changed) after main.journal's last analysis
 }
 
 var c01SessNames = [3]string{"main.journal", "incl.journal", "leaf.journal"}
@@ -100,6 +101,9 @@ func (w *c01Sess) analyse(i int) {
 		// the background analysis this notification started has not run yet
 		return
 	}
+	if i == 0 {
+		w.savedAfterMain = false
+	}
 	if zzverif.Engine() {
 		c01Settle()
 		return
@@ -135,6 +139,9 @@ func (w *c01Sess) didClose(i int) {
 
 // reanalyse: what the next keystroke in document i would trigger, without changing its text.
 func (w *c01Sess) reanalyse(i int) {
+	if i == 0 && w.open[0] {
+		w.savedAfterMain = false
+	}
 	if w.open[i] {
 		w.s.publishDiagnostics(w.ctx, w.uri(i), w.buf[i])
 	}
@@ -180,6 +187,9 @@ func (w *c01Sess) apply(op int) {
 	case c01OpSaveInc:
 		if !w.open[1] {
 			return
+		}
+		if w.disk[1] != w.buf[1] {
+			w.savedAfterMain = true
 		}
 		w.disk[1] = w.buf[1]
 		zzverif.WriteFile(w.path(1), w.disk[1])
@@ -306,6 +316,10 @@ func verifC01Session(steps int, requests []int) {
 	} else if got[0] != want[0] && !ws && w.pendingOp == c01OpToggleInclude && c01FromTree(want[0]) && zzverif.Known(c01ClsPending) {
 		// same cause, seen through the MEMBERSHIP of the tree: the pending change added or removed
 		// main's include line; references and definition still walk the files of the last analysis
+		zzverif.Reach("kf:" + c01ClsPending)
+	} else if got[0] != want[0] && !ws && from == 0 && w.savedAfterMain && !w.open[1] && c01FromTree(want[0]) && zzverif.Known(c01ClsPending) {
+		// same cause again: the included file was saved and closed after main's last analysis; main is
+		// not analysed again when another file is saved, so its tree holds the file's previous text
 		zzverif.Reach("kf:" + c01ClsPending)
 	} else if got[0] != want[0] && !ws && !settled && c01FromAnalysis(want[0]) && zzverif.Known(c01ClsPending) {
 		// the requesting document's last analysis predates a change elsewhere (c01_fresh.go)
